@@ -5,6 +5,7 @@
 #include <signal.h>
 #include <sys/mman.h>
 #include <sys/stat.h>
+#include <sys/syscall.h>
 #include <sys/wait.h>
 #include <unistd.h>
 
@@ -60,7 +61,7 @@ inline Json cfg_to_json(const sim::Config& c) {
     j.set("starve_victims", c.starve_victims).set("starve_window", c.starve_window);
     j.set("spurious_rate", c.spurious_rate).set("random_signal", c.random_signal);
     j.set("clock_jump_rate", c.clock_jump_rate).set("clock_jump_ms", (int64_t)c.clock_jump_ms);
-    j.set("clock_step_max_ms", c.clock_step_max_ms).set("step_cap", c.step_cap).set("post_op_points", c.post_op_points);
+    j.set("clock_step_max_ms", c.clock_step_max_ms).set("step_cap", c.step_cap).set("post_op_points", c.post_op_points).set("atomic_points", c.atomic_points);
     return j;
 }
 inline sim::Config cfg_from_json(const Json& j) {
@@ -79,6 +80,7 @@ inline sim::Config cfg_from_json(const Json& j) {
     c.clock_step_max_ms = (int)j.get("clock_step_max_ms", 2);
     c.step_cap = (int)j.get("step_cap", 20000);
     c.post_op_points = !j.has("post_op_points") || j.at("post_op_points").b;
+    c.atomic_points = !j.has("atomic_points") || j.at("atomic_points").b;
     return c;
 }
 inline std::string decisions_to_string(const std::vector<sim::Decision>& d) {
@@ -234,7 +236,7 @@ inline Outcome outcome_now(const std::string& status, const std::string& cls, co
 // ------------------------------------------------------------------------------------------------ aggregated statistics (loop mode)
 struct Agg {
     uint64_t runs = 0, nontrivial = 0, steps = 0, choice_points = 0, switches = 0, threads = 0;
-    uint64_t spurious = 0, signal_choices = 0, clock_jumps = 0, late_starts = 0, starved_steps = 0, mutex_contended = 0, cond_parks = 0;
+    uint64_t spurious = 0, signal_choices = 0, clock_jumps = 0, late_starts = 0, starved_steps = 0, mutex_contended = 0, cond_parks = 0, atomic_points = 0;
     uint64_t runs_spurious = 0, runs_random_signal = 0, runs_clock_jump = 0;
     int64_t sim_ms = 0;
     uint64_t strat[4] = {0, 0, 0, 0};
@@ -254,7 +256,7 @@ inline void print_summary() {
     Json fr = Json::object();
     fr.set("spurious_wakeup", a.runs_spurious).set("random_signal_target", a.runs_random_signal).set("clock_jump", a.runs_clock_jump);
     j.set("runs_with_fault_enabled", fr);
-    j.set("mutex_contended", a.mutex_contended).set("cond_parks", a.cond_parks);
+    j.set("mutex_contended", a.mutex_contended).set("cond_parks", a.cond_parks).set("atomic_scheduling_points", a.atomic_points);
     Json st = Json::object();
     st.set("uniform", a.strat[0]).set("sticky", a.strat[1]).set("pct", a.strat[2]).set("starve", a.strat[3]);
     j.set("strategy_runs", st);
@@ -268,13 +270,20 @@ inline void print_summary() {
     fflush(stdout);
 }
 
+// Leave without running ThreadSanitizer's exit hooks ("finished with ignores enabled" would turn the exit code into 66).
+[[noreturn]] inline void hard_exit(int code) {
+    fflush(stdout);
+    fflush(stderr);
+    syscall(SYS_exit_group, code);
+    __builtin_unreachable();
+}
+
 // ------------------------------------------------------------------------------------------------ sinks
 inline void finish_single(const Outcome& o, int code) {
     if (!g_cur.result_path.empty()) write_file(g_cur.result_path, replay_json(g_cur.program, g_cur.cfg, o, true).dump());
     printf("RESULT status=%s class=%s eh=%s steps=%u diverged=%d detail=%s\n", o.status.c_str(), o.vclass.c_str(), hex(o.event_hash).c_str(), o.steps,
            (int)o.diverged, o.detail.c_str());
-    fflush(stdout);
-    _exit(code);
+    hard_exit(code);
 }
 
 inline void fatal_sink(const sim::Fatal& f) {
@@ -285,8 +294,7 @@ inline void fatal_sink(const sim::Fatal& f) {
         printf("V idx=%ld seed=%llu status=%s class=%s owned=%d detail=%s\n", g_cur.idx, (unsigned long long)g_cur.run_seed, status.c_str(), f.vclass.c_str(),
                (int)hx::owns(g_opts.prop, f.vclass), f.detail.c_str());
         print_summary();
-        fflush(stdout);
-        _exit(code);
+        hard_exit(code);
     }
     finish_single(o, code);
 }
@@ -302,7 +310,7 @@ inline void death_callback() {
 inline void on_alarm(int) {
     const char msg[] = "HANG\n";
     (void)!write(1, msg, sizeof msg - 1);
-    _exit(14);
+    syscall(SYS_exit_group, 14);
 }
 
 inline void on_terminate() {
@@ -347,7 +355,7 @@ inline int loop_mode() {
         auto& a = g_agg;
         a.runs++; a.nontrivial += nontrivial; a.steps += st.steps; a.choice_points += st.choice_points; a.switches += st.switches; a.threads += st.threads;
         a.spurious += st.spurious; a.signal_choices += st.signal_choices; a.clock_jumps += st.clock_jumps; a.late_starts += st.late_starts;
-        a.starved_steps += st.starved_steps; a.mutex_contended += st.mutex_contended; a.cond_parks += st.cond_parks; a.sim_ms += st.sim_ms;
+        a.starved_steps += st.starved_steps; a.mutex_contended += st.mutex_contended; a.cond_parks += st.cond_parks; a.sim_ms += st.sim_ms; a.atomic_points += st.atomic_points;
         a.runs_spurious += cfg.spurious_rate > 0; a.runs_random_signal += cfg.random_signal; a.runs_clock_jump += cfg.clock_jump_rate > 0;
         a.strat[cfg.strategy & 3]++;
         if (a.samples.size() < 2 && nontrivial) {
@@ -553,17 +561,17 @@ inline int investigate_mode() {
         auto try_script = [&](const std::vector<sim::Decision>& s) {
             Outcome r = run_in_child(best_prog, replay_cfg(best_cfg, s), tmp);
             attempts++;
-            if (same(r)) { best = r; script = r.decisions; return true; }
+            if (same(r)) { best = r; script = s; return true; }   // keep the candidate itself (with its defaults), not the re-expanded record
             return false;
         };
         // (a) truncate: everything after position n is default
         for (size_t n = script.size(); n > 0;) {
             size_t cut = n / 2;
             std::vector<sim::Decision> s(script.begin(), script.begin() + cut);
-            if (try_script(s)) n = std::min(cut, script.size());
+            if (try_script(s)) n = cut;
             else break;
         }
-        // (b) chunks to default
+        // (b) chunks to default, biggest first
         for (size_t chunk = std::max<size_t>(1, script.size() / 2);; chunk /= 2) {
             for (size_t i = 0; i < script.size(); i += chunk) {
                 std::vector<sim::Decision> s = script;
@@ -574,6 +582,14 @@ inline int investigate_mode() {
             }
             if (chunk <= 1) break;
         }
+        // (c) drop trailing defaults and try to delete single entries (later entries of the same kind move up)
+        while (!script.empty() && script.back().val == default_of(script.back().kind)) script.pop_back();
+        for (size_t i = script.size(); i-- > 0 && attempts < 9000;) {
+            std::vector<sim::Decision> s = script;
+            s.erase(s.begin() + i);
+            try_script(s);
+        }
+        while (!script.empty() && script.back().val == default_of(script.back().kind)) script.pop_back();
     }
 
     // 4. final confirmation in a fresh child, then write the replay file
